@@ -297,7 +297,7 @@ pub fn check_case(case: &Case) -> (Vec<Violation>, CaseStats) {
 }
 
 /// Oracle M: live heap at quiescence points following a context line must not grow with input.
-pub fn memory_check(args: &[String], n: usize, seed: u64, long_lines: bool, many_files: bool, wrap_shapes: bool, many_commits: bool) -> (Option<Violation>, serde_json::Value) {
+pub fn memory_check(args: &[String], n: usize, seed: u64, long_lines: bool, many_files: bool, wrap_shapes: bool, many_commits: bool, giant_hunk: bool) -> (Option<Violation>, serde_json::Value) {
     let config = match make_config(args) {
         Ok(c) => c,
         Err(e) => return (None, json!({"error": e})),
@@ -312,7 +312,7 @@ pub fn memory_check(args: &[String], n: usize, seed: u64, long_lines: bool, many
         // `many_files`: one hunk per file section, i.e. the number of files grows with the input
         // `many_commits`: additionally every file section is a commit of its own (`git log -p`)
         let many_files = many_files || many_commits;
-        let per_section = if many_files { 1 } else { 50 };
+        let per_section = if giant_hunk { usize::MAX } else if many_files { 1 } else { 50 };
         let mut s = 0;
         let mut produced = 0;
         while produced < reps {
@@ -325,6 +325,11 @@ pub fn memory_check(args: &[String], n: usize, seed: u64, long_lines: bool, many
                         // kinds with file events and mode lines too: what a per-commit or per-file record would keep
                         let kind = [gen::SectionKind::Modified, gen::SectionKind::Added, gen::SectionKind::RenamedChanged, gen::SectionKind::ModeAndChange, gen::SectionKind::Deleted][produced % 5];
                         gen::generate_commit_unit(&mut rng, &gp, kind, s, tok, None, produced % 3 == 0)
+                    } else if giant_hunk {
+                        // plain text: with a programming language the highlighter's scope stack deepens
+                        // with every unclosed bracket or comment opener of the (random) content, which
+                        // is memory owed to the content's nesting, not to the length of the hunk
+                        gen::generate_section_named(&mut rng, &gp, gen::SectionKind::Modified, s, tok, Some("data/big.txt".to_string()))
                     } else {
                         gen::generate_section(&mut rng, &gp, gen::SectionKind::Modified, s, tok)
                     };
@@ -338,6 +343,11 @@ pub fn memory_check(args: &[String], n: usize, seed: u64, long_lines: bool, many
                 tok += sec.iter().filter(|l| l.token.is_some()).count();
                 for mut l in sec {
                     if h > 0 && l.kind == LineKind::Meta {
+                        continue;
+                    }
+                    // `giant_hunk`: the whole input is one file with ONE hunk (a large added or rewritten
+                    // file): headers only once, then nothing but hunk lines
+                    if giant_hunk && produced > 0 && matches!(l.kind, LineKind::Meta | LineKind::HunkHeader) {
                         continue;
                     }
                     if l.kind == LineKind::HunkHeader {
@@ -376,6 +386,9 @@ pub fn memory_check(args: &[String], n: usize, seed: u64, long_lines: bool, many
     };
     let measure = |reps: usize| -> (isize, usize, usize) {
         let (data, lines) = build(reps);
+        if let Ok(dir) = std::env::var("DELTASIM_DUMP_MEM_INPUT") {
+            let _ = std::fs::write(format!("{}/mem-input-{}.diff", dir, reps), &data);
+        }
         let len = data.len();
         let chunks: Vec<usize> = lines.iter().map(|l| l.text.len() + 1).collect();
         // quiescence i (i >= 1) follows line i-1
@@ -406,7 +419,7 @@ pub fn memory_check(args: &[String], n: usize, seed: u64, long_lines: bool, many
     let (h1, h3, h9, l1, l3, l9, per_hunk_a, per_hunk_b, q9) = slopes(n);
     let growth = h9 - h1;
     let input_growth = (l9 - l1) as isize;
-    let mut info = json!({"args": args, "long_lines": long_lines, "many_files": many_files, "wrap_shapes": wrap_shapes, "many_commits": many_commits, "hunks_small": n, "hunks_mid": 3 * n, "hunks_large": 9 * n, "input_bytes_small": l1, "input_bytes_mid": l3, "input_bytes_large": l9, "live_heap_small": h1, "live_heap_mid": h3, "live_heap_large": h9, "heap_bytes_per_added_hunk": [per_hunk_a, per_hunk_b], "quiescence_points_large": q9});
+    let mut info = json!({"args": args, "long_lines": long_lines, "many_files": many_files, "wrap_shapes": wrap_shapes, "many_commits": many_commits, "giant_hunk": giant_hunk, "hunks_small": n, "hunks_mid": 3 * n, "hunks_large": 9 * n, "input_bytes_small": l1, "input_bytes_mid": l3, "input_bytes_large": l9, "live_heap_small": h1, "live_heap_mid": h3, "live_heap_large": h9, "heap_bytes_per_added_hunk": [per_hunk_a, per_hunk_b], "quiescence_points_large": q9});
     let first = per_hunk_a.min(per_hunk_b);
     if growth > input_growth / 4 || first >= 2.0 {
         // A buffer that doubles its capacity now and then (and stops once it fits the largest item)
@@ -421,7 +434,7 @@ pub fn memory_check(args: &[String], n: usize, seed: u64, long_lines: bool, many
                 Some(Violation::new(
                     "M-memory",
                     "M:heap-grows-with-input",
-                    format!("live heap at a quiescence point after an unchanged line grows with the input: {} -> {} -> {} bytes for {} -> {} -> {} hunks ({:.1} and {:.1} bytes per added hunk; at twice the sizes {:.1} and {:.1}; input grew by {} bytes; long lines: {}; one file per hunk: {}; wrap shapes: {}; one commit per hunk: {}; args {:?})", h1, h3, h9, n, 3 * n, 9 * n, per_hunk_a, per_hunk_b, a2, b2, input_growth, long_lines, many_files, wrap_shapes, many_commits, args),
+                    format!("live heap at a quiescence point after an unchanged line grows with the input: {} -> {} -> {} bytes for {} -> {} -> {} hunks ({:.1} and {:.1} bytes per added hunk; at twice the sizes {:.1} and {:.1}; input grew by {} bytes; long lines: {}; one file per hunk: {}; wrap shapes: {}; one commit per hunk: {}; one giant hunk: {}; args {:?})", h1, h3, h9, n, 3 * n, 9 * n, per_hunk_a, per_hunk_b, a2, b2, input_growth, long_lines, many_files, wrap_shapes, many_commits, giant_hunk, args),
                 )),
                 info,
             );
